@@ -100,7 +100,7 @@ def parseOp : List String → Option Op
   | ["reply", "mode", m, v] => do pure (.replyMode (← m.toInt?) (← v.toInt?))
   | ["reply", "shape", v] => v.toInt?.map .replyShape
   | ["reply", "sgr", c, r] => do pure (.replySgr ((← c.toInt?) ≠ 0) ((← r.toInt?) ≠ 0))
-  | ["await", _] => some .await
+  | ["await", m] => m.toInt?.map .await
   | "pause" :: _ => some .pause
   | "resume" :: _ => some .resume
   | "teardown" :: _ => some .teardown
